@@ -399,8 +399,11 @@ def Ite(c, a, b):
     # ite(c1, x, ite(c2, x, y)) -> ite(c1|c2, x, y)
     if b.op == 'ite' and b.args[1] is a:
         return Ite(Or(c, b.args[0]), a, b.args[2])
-    if a.sort == 'F' and a.op == 'i2f' and b.op == 'i2f':
-        return I2F(Ite(c, a.args[0], b.args[0]))
+    if a.sort == 'F' and (a.op in ('i2f', 'const')) and (b.op in ('i2f', 'const')):
+        # integer-valued floats (loop counters such as `i := 0.; i++`, distances) stay integers
+        ia, ib = _intview(a), _intview(b)
+        if ia is not None and ib is not None:
+            return I2F(Ite(c, ia, ib))
     if a.sort == 'F' and a.op == b.op and a.val == b.val and len(a.args) == len(b.args) and a.args and a.op not in ('ite',):
         # anti-unification: ite(c, f(x, y), f(x', y)) = f(ite(c, x, x'), y); merges the branches of
         # code such as `if scopeUnchanged { return roundup(a*e) }; return roundup(b*e)`
@@ -421,6 +424,8 @@ def valueset(t):
         return r if r != 0 else None
     if t.op == 'const':
         r = frozenset((t.val,))
+    elif t.op == 'istage':
+        r = valueset(t.args[0])
     elif t.op == 'ite':
         a = valueset(t.args[1])
         b = valueset(t.args[2]) if a is not None else None
@@ -447,6 +452,8 @@ def casemap(t):
         return r
     if t.op == 'const':
         r = {t.val: TRUE}
+    elif t.op == 'istage':
+        r = casemap(t.args[0])
     else:
         a = casemap(t.args[1])
         b = casemap(t.args[2])
@@ -511,6 +518,8 @@ def _maptree(t, f, memo):
     if r is None:
         if t.op == 'const':
             r = f(t.val)
+        elif t.op == 'istage':
+            r = _maptree(t.args[0], f, memo)
         else:
             r = Ite(t.args[0], _maptree(t.args[1], f, memo), _maptree(t.args[2], f, memo))
         memo[t.id] = r
@@ -522,6 +531,8 @@ def _lift(f, sort, *ts):
     preserving, no guard growth); None if some t is not such a tree"""
     n = 1
     for t in ts:
+        if t.op == 'istage':
+            return None
         k = nleaves(t)
         if not k:
             return None
@@ -947,6 +958,15 @@ def bits2f(a):
     return mk('bits2f', (a,), 'F')
 
 
+def istage(t):
+    """opaque integer cut point (e.g. a MacroVector level): transparent for small-set
+    extraction (indexing still sees the constants), opaque for the rewriter, so that
+    comparisons with it stay atoms and it becomes a frontier term of the cube analysis"""
+    if t.op in ('const', 'istage'):
+        return t
+    return mk('istage', (t,), t.sort)
+
+
 def table(name, key):
     return mk('table', (key,), 64, name)
 
@@ -1019,7 +1039,7 @@ def body(t, nm=name):
         return '(fp.isNegative %s)' % nm(a[0])
     if op == 'bits2f':
         return '((_ to_fp 11 53) %s)' % nm(a[0])
-    if op == 'stage' or op == 'name':
+    if op in ('stage', 'name', 'istage'):
         return nm(a[0])
     raise ValueError('cannot print op ' + op)
 
@@ -1162,7 +1182,7 @@ def _eval1(t, vals, env, tables):
         return struct.unpack('<Q', struct.pack('<d', a[0]))[0]
     if op == 'bits2f':
         return struct.unpack('<d', struct.pack('<Q', a[0]))[0]
-    if op == 'stage' or op == 'name':
+    if op in ('stage', 'name', 'istage'):
         return a[0]
     if op == 'table':
         return tables(t.val, signed(a[0], 64)) & _mask(64)
